@@ -16,7 +16,8 @@ from vlib.env import HarnessError
 
 NSHARDS = 16
 KNOWN_FILE = os.path.join(env.VERIF, "known_findings.txt")
-EVIDENCE_DIR = os.path.join(env.VERIF, "evidence")
+# sensitivity runs against scratch trees (VERIF_REPO elsewhere) must not overwrite the real evidence
+EVIDENCE_DIR = os.environ.get("VERIF_EVIDENCE_DIR") or os.path.join(env.VERIF, "evidence")
 REPLAY_DIR = os.path.join(env.VERIF, "replays")
 
 
